@@ -198,10 +198,14 @@ def r3_logs(text, log):
     while i < len(st):
         t = st[i]
         if t.kind == "ident" and t.text in _LOG_MACROS and i + 2 < len(st) and st[i + 1].text == "!" and st[i + 2].text == "(":
-            prev = st[i - 1].text if i > 0 else "{"
+            # optional path prefix: `tracing::debug!(..)`, `log::warn!(..)`
+            s0 = i
+            while s0 >= 3 and st[s0 - 1].text == ":" and st[s0 - 2].text == ":" and st[s0 - 3].kind == "ident":
+                s0 -= 3
+            prev = st[s0 - 1].text if s0 > 0 else "{"
             c = match_close(st, i + 2)
             if prev in ("{", ";", "}") and c + 1 < len(st) and st[c + 1].text == ";":
-                edits.append((t.start, st[c + 1].end, ""))
+                edits.append((st[s0].start, st[c + 1].end, ""))
                 n += 1
                 i = c + 2
                 continue
